@@ -8,7 +8,9 @@ that cannot run or answers something the model has no term for raises ExtractErr
 * `treeNoneIsLeaf`        — every optree wrapper of `tree_util.py` treats `None` as a leaf (all five must agree);
 * `returnPrefixStrict`    — `pytask_execute_task` rejects a returned value whose structure *equals* the declared one;
 * `productsNeedParameter` — `pytask_execute_task` passes a product as keyword argument only if the function has that parameter;
-* `taskProducesReplaces`  — with `@task(produces=…)`, `parse_products_from_task_function` drops the products parsed from parameters.
+* `taskProducesReplaces`  — with `@task(produces=…)`, `parse_products_from_task_function` drops the products parsed from parameters;
+* `collapseKeepsUserNodes` — `parse_dependencies_from_task_function` does not fold a container holding a user-written node into one PythonNode;
+* `productFalsyFallsBack` — a falsy declared product value (`produces=[]`) is replaced by the annotation / None.
 
 Hook into `extract.py` with:   from extract_pytree import pytree_facts; EXTRA_SECTIONS.append(pytree_facts)
 """
@@ -77,6 +79,55 @@ def _execute_probes():
     return strict, guarded
 
 
+def _session():
+    from _pytask import collect as _collect
+    from _pytask.pluginmanager import get_plugin_manager
+    from _pytask.session import Session
+
+    pm = get_plugin_manager()
+    if not pm.is_registered(_collect):
+        pm.register(_collect)
+    return Session(config={"paths": (), "root": Path.cwd(), "check_casing_of_paths": False}, hook=pm.hook)
+
+
+def _collapse_keeps_user_nodes() -> bool:
+    from _pytask.collect_utils import parse_dependencies_from_task_function
+    from _pytask.nodes import PythonNode
+
+    try:
+        def f(x={"a": PythonNode(value=1), "b": 2}):  # noqa: ARG001, B006
+            return None
+
+        deps = parse_dependencies_from_task_function(_session(), None, "verif_t", Path.cwd(), f)
+        got = deps["x"]
+    except Exception as e:  # noqa: BLE001
+        raise _err(f"probe of parse_dependencies_from_task_function failed: {type(e).__name__}: {e}") from None
+    if isinstance(got, PythonNode):
+        return False
+    if isinstance(got, dict) and set(got) == {"a", "b"} and all(isinstance(v, PythonNode) for v in got.values()):
+        return True
+    raise _err(f"unexpected collection of a container with a user-written PythonNode: {type(got).__name__}")
+
+
+def _product_falsy_falls_back() -> bool:
+    from _pytask.collect_utils import parse_products_from_task_function
+    from _pytask.nodes import PythonNode
+
+    try:
+        def f(produces=[]):  # noqa: ARG001, B006
+            return None
+
+        out = parse_products_from_task_function(_session(), None, "verif_t", Path.cwd(), f)
+        got = out["produces"]
+    except Exception as e:  # noqa: BLE001
+        raise _err(f"probe of parse_products_from_task_function (empty container) failed: {type(e).__name__}: {e}") from None
+    if got == []:
+        return False
+    if isinstance(got, PythonNode) and got.value is None:
+        return True
+    raise _err(f"unexpected collection of produces=[]: {got!r}")
+
+
 def _task_produces_replaces() -> bool:
     from typing import Annotated
 
@@ -123,6 +174,8 @@ def pytree_facts() -> list[str]:
     nil = _none_is_leaf(tu)
     strict, guarded = _execute_probes()
     repl = _task_produces_replaces()
+    keeps = _collapse_keeps_user_nodes()
+    falls = _product_falsy_falls_back()
     b = extract.lean_bool
     return [
         "/-- every optree wrapper of `tree_util.py` treats `None` as a leaf (`none_is_leaf=True`). -/",
@@ -133,5 +186,9 @@ def pytree_facts() -> list[str]:
         f"def productsNeedParameter : Bool := {b(guarded)}",
         "/-- `@task(produces=…)` re-binds the whole products dict (`out = {\"return\": …}`) instead of adding a key. -/",
         f"def taskProducesReplaces : Bool := {b(repl)}",
+        "/-- a container argument holding a user-written node is not folded into one `PythonNode` (fix 594c921). -/",
+        f"def collapseKeepsUserNodes : Bool := {b(keeps)}",
+        "/-- a falsy declared product value falls through to the annotation / `None` (`kwargs.get(name) or …`; removed by fix 123c420). -/",
+        f"def productFalsyFallsBack : Bool := {b(falls)}",
         "",
     ]
